@@ -12,18 +12,22 @@
 (*           that text, and after the probe): the step is possible only if *)
 (*           the recorded observation is the denoted one.                  *)
 EXTENDS LayoutTree, Json, IOUtils
-VARIABLES l, j
+VARIABLES l, d, j, k
+(* an event holds a HISTORY of one layout object: arg.docs = list of descriptions [items, ops, reset]; the          *)
+(* descriptions are loaded one after the other on the same object ("reset" = layout::reset() before the next one), *)
+(* ops = operations on the loaded layout (gset: graph property from text, gbind: the graph binds again)            *)
 TraceLog == ndJsonDeserialize(IOEnv.TRACE)
-Doc == TraceLog[l]
-Items == Doc.arg.items
+Ev == TraceLog[l]
+Doc == Ev.arg.docs[d]
+Items == Doc.items
 
 Begin ==
-  /\ j = 0
-  /\ stack' = << [h |-> NoHdr, body |-> <<>>, id |-> 1] >>
+  /\ d = 0
+  /\ stack' = EmptyStack
   /\ text' = <<>> /\ heap' = <<LayImg>> /\ cnt' = [secs |-> 0, opts |-> 0, rep |-> 0]
-  /\ den' = Exp1(stack')
+  /\ den' = Exp1(stack') /\ sess' = NoSess
   /\ obs' = [a |-> "none", arg |-> [x |-> 0], exp |-> [ret |-> "ok"]]
-  /\ j' = 1 /\ l' = l
+  /\ d' = 1 /\ j' = 1 /\ k' = 1 /\ l' = l
 
 ItemAct(it) ==
   CASE it.k = "opt"   -> AddOption(it.name, it.v, it.d)
@@ -31,32 +35,47 @@ ItemAct(it) ==
     [] it.k = "open"  -> OpenSection(it.h, it.d)
     [] it.k = "close" -> CloseSection(it.d)
     [] OTHER -> FALSE
-
 Item ==
-  /\ j >= 1 /\ j <= Len(Items)
+  /\ d >= 1 /\ j <= Len(Items)
   /\ LET it == Items[j] IN
-       \/ ItemAct(it)
-       \/ ~ENABLED ItemAct(it) /\ UNCHANGED vars
-  /\ j' = j + 1 /\ l' = l
+       \/ ~sess.on /\ ItemAct(it)
+       \/ ~(~sess.on /\ ENABLED ItemAct(it)) /\ UNCHANGED vars
+  /\ j' = j + 1 /\ UNCHANGED <<l, d, k>>
 
-(* the complete document and what loading / probing it must show *)
+OpAct(op) ==
+  CASE op.k = "gset"  -> GSet(op.g + 1, op.name, op.v)
+    [] op.k = "gbind" -> GBind(op.g + 1)
+    [] OTHER -> FALSE
+Op ==
+  /\ d >= 1 /\ j > Len(Items) /\ k <= Len(Doc.ops)
+  /\ LET op == Doc.ops[k] IN
+       \/ OpAct(op)
+       \/ ~ENABLED OpAct(op) /\ UNCHANGED vars
+  /\ k' = k + 1 /\ UNCHANGED <<l, d, j>>
+
+Following ==
+  /\ d >= 1 /\ j > Len(Items) /\ k > Len(Doc.ops) /\ d < Len(Ev.arg.docs)
+  /\ NextDoc(Doc.reset)
+  /\ d' = d + 1 /\ j' = 1 /\ k' = 1 /\ l' = l
+
+(* the complete history and what every step of it must show *)
 DocText == RleOfRuns(CT!Cat(text, Closers(stack)))
 ProbeOf(p) ==
-  IF cnt.secs = 0 \/ p = "none" THEN <<>>
+  IF cnt.secs = 0 \/ p = "none" \/ sess.docs > 0 \/ sess.on THEN <<>>
   ELSE IF p = "cload" THEN << [a |-> "cload", arg |-> [text |-> DocText],
                                exp |-> [ret |-> "ok", items |-> CItems(Fold(stack), Len(Fold(stack)))]] >>
   ELSE IF p = "inst" THEN
        (IF den.ret # "ok" THEN <<>>
-        ELSE LET k == IF cnt.secs % 2 = 0 THEN "axis" ELSE "world" IN
-             << [a |-> "inst", arg |-> [kind |-> k, name |-> InstName],
+        ELSE LET kk == IF cnt.secs % 2 = 0 THEN "axis" ELSE "world" IN
+             << [a |-> "inst", arg |-> [kind |-> kk, name |-> InstName],
                  exp |-> [ret |-> "ok", lay |-> den.lay, graphs |-> den.graphs,
-                          items |-> Append(den.items, [name |-> L!RLE(InstName), kind |-> k, p |-> AllView1(k, Def1T[k]),
+                          items |-> Append(den.items, [name |-> L!RLE(InstName), kind |-> kk, p |-> AllView1(kk, Def1T[kk]),
                                                        items |-> <<>>, axes |-> <<>>, worlds |-> <<>>])]] >>)
   ELSE IF p = "props" /\ \E i \in 2..Len(heap) : heap[i].kind = "text" /\ ~UnitXY(heap[i].r) THEN <<>>
   ELSE << [a |-> IF p = "dump" THEN "dump" ELSE "copy", arg |-> IF p = "dump" THEN [x |-> 0] ELSE [mode |-> p],
            exp |-> IF den.ret = "ok" THEN [ret |-> "ok", lay |-> den.lay, items |-> den.items, graphs |-> den.graphs]
                    ELSE [ret |-> "failed"]] >>
-Beh == << [a |-> "load", arg |-> [text |-> DocText], exp |-> den] >> \o ProbeOf(Doc.arg.probe)
+Beh == History \o ProbeOf(Ev.arg.probe)
 
 (* projection of a recorded observation onto what the specification speaks about *)
 ProjB(b) == [i \in 1..Len(b) |-> [name |-> b[i].name, kind |-> b[i].kind, p |-> b[i].p]]
@@ -71,29 +90,29 @@ RECURSIVE CopiesOK(_)
 CopiesOK(its) == \A i \in 1..Len(its) : ("cret" \in DOMAIN its[i] => its[i].cret = "ok") /\ CopiesOK(its[i].items)
 StepOK(st, o) ==
   /\ o.ret = st.exp.ret
-  /\ st.exp.ret = "ok" =>
-       IF st.a = "cload" THEN ProjC(o.items) = st.exp.items
-       ELSE /\ o.lay = st.exp.lay /\ o.graphs = st.exp.graphs
-            /\ ProjItems(o.items) = st.exp.items /\ CopiesOK(o.items)
-            /\ st.a = "load" => o.rep = st.exp.rep
+  /\ IF st.a = "cload" THEN ProjC(o.items) = st.exp.items
+     ELSE /\ "lay" \in DOMAIN st.exp => \A key \in DOMAIN st.exp.lay : o.lay[key] = st.exp.lay[key]
+          /\ "graphs" \in DOMAIN st.exp => o.graphs = st.exp.graphs
+          /\ "items" \in DOMAIN st.exp => ProjItems(o.items) = st.exp.items /\ CopiesOK(o.items)
+          /\ ("rep" \in DOMAIN st.exp /\ st.exp.rep >= 0) => o.rep = st.exp.rep
 
 Finish ==
-  /\ j > Len(Items)
-  /\ IF "obs" \in DOMAIN Doc
-     THEN /\ Doc.arg.text = DocText
-          /\ Len(Doc.obs) = Len(Beh)
-          /\ \A i \in 1..Len(Beh) : StepOK(Beh[i], Doc.obs[i])
+  /\ d >= 1 /\ j > Len(Items) /\ k > Len(Doc.ops) /\ d = Len(Ev.arg.docs)
+  /\ IF "obs" \in DOMAIN Ev
+     THEN /\ Len(Ev.obs) = Len(Beh)
+          /\ \A i \in 1..Len(Beh) : StepOK(Beh[i], Ev.obs[i])
+          /\ Ev.arg.texts = [i \in 1..Len(Beh) |-> IF "text" \in DOMAIN Beh[i].arg THEN Beh[i].arg.text ELSE <<>>]
      ELSE PrintT(<<"BEHAV", ToJson(Beh)>>)
   /\ TLCSet(1, l)
   /\ UNCHANGED vars
-  /\ j' = 0 /\ l' = l + 1
+  /\ d' = 0 /\ j' = 1 /\ k' = 1 /\ l' = l + 1
 
 TraceInit ==
-  /\ l = 1 /\ j = 0 /\ TLCSet(1, 0)
+  /\ l = 1 /\ d = 0 /\ j = 1 /\ k = 1 /\ TLCSet(1, 0)
   /\ Init
 
-TraceNext == l <= Len(TraceLog) /\ (Begin \/ Item \/ Finish)
-TraceSpec == TraceInit /\ [][TraceNext]_<<vars, l, j>>
+TraceNext == l <= Len(TraceLog) /\ (Begin \/ Item \/ Op \/ Following \/ Finish)
+TraceSpec == TraceInit /\ [][TraceNext]_<<vars, l, d, j, k>>
 
 TraceAccepted ==
   LET n == TLCGet(1) IN
